@@ -1,4 +1,5 @@
 import JaqalProofs.Lemmas.ParsedLegal
+import JaqalProofs.Lemmas.ParsedGoodRefs
 /-!
 # C06 for the circuits the parser produces — `FillIn.WellFormed` discharged, `goodRefs` explicit
 
@@ -17,5 +18,38 @@ theorem C06_fill_in_map_parsed (cfg : Config) (txt : String) (c c' : Circuit)
     Sem.meaning [] c' = Sem.meaning [] c ∧ ArgsAll FundRef c'.body ∧
       (∀ m ∈ c'.macros, ArgsAll (FundRefNot (m.params.map (·.1))) m.body) ∧ c'.registers = c.registers :=
   C06_fill_in_map c c' (parsed_legal cfg txt c hp).wf2 ((goodRefs_iff c).1 hg).1 ((goodRefs_iff c).1 hg).2 h
+
+/-- `goodRefs` is automatic after `fill_in_let` when no macro body indexes a parameter (`Lemmas/ParsedGoodRefs.lean`) -/
+theorem C06_goodRefs_parsed_let (cfg : Config) (txt : String) (ov : List (String × Num)) (c c1 : Circuit)
+    (hp : Pipeline.parseProgram cfg txt = .ok c) (hn : noParamIndex c = true) (h1 : fillInLet ov c = .ok c1) :
+    goodRefs c1 = true :=
+  parsed_let_goodRefs cfg txt ov c c1 hp hn h1
+
+/-- **C06_fill_in_map after `fill_in_let` on a parsed circuit** — the only side condition is the decidable `noParamIndex c`
+(no macro body of the PARSED circuit holds a qubit reference whose source or index is a macro parameter; it cannot be dropped:
+`noParamIndex_needed`).  `fill_in_map ∘ fill_in_let(ov)`: (1) the result means what `fill_in_let`'s result means, which is what
+the parsed circuit means under the overrides; (2) every qubit argument is `fundamental[k]`; (3) inside a macro the fundamental
+register is not named like a parameter; (4) the registers are those of `fill_in_let`'s result. -/
+theorem C06_fill_in_map_parsed_let (cfg : Config) (txt : String) (ov : List (String × Num)) (c c1 c2 : Circuit)
+    (hp : Pipeline.parseProgram cfg txt = .ok c) (hn : noParamIndex c = true) (h1 : fillInLet ov c = .ok c1)
+    (h2 : fillInMap c1 = .ok c2) :
+    Sem.meaning [] c2 = Sem.meaning [] c1 ∧ Sem.meaning [] c2 = Sem.meaning (normOv ov) c ∧ ArgsAll FundRef c2.body ∧
+      (∀ m ∈ c2.macros, ArgsAll (FundRefNot (m.params.map (·.1))) m.body) ∧ c2.registers = c1.registers := by
+  have hL := parsed_legal cfg txt c hp
+  have hL1 : Legal c1 := C10_legal_preserved (.let_ ov) c c1 hL h1
+  have hg := (goodRefs_iff c1).1 (parsed_let_goodRefs cfg txt ov c c1 hp hn h1)
+  obtain ⟨e1, e2, e3, e4⟩ := C06_fill_in_map c1 c2 hL1.wf2 hg.1 hg.2 h2
+  exact ⟨e1, by rw [e1]; exact C05_meaning ov c c1 hL.wf2 h1, e2, e3, e4⟩
+
+/-- non-vacuity: the premises hold of `let n 4; register r[n]; map a r[1:n]; macro M x { G x }; M a[0]` with the override
+`n ↦ 6` (it parses, `noParamIndex`, `fill_in_let` and then `fill_in_map` succeed) -/
+theorem C06_fill_in_map_parsed_let_ex :
+    (match Pipeline.parseProgram {} "let n 4\nregister r[n]\nmap a r[1:n]\nmacro M x { G x }\nM a[0]\n" with
+     | .ok c => (match fillInLet [("n", .int 6)] c with
+                 | .ok c1 => (match fillInMap c1 with
+                              | .ok _ => noParamIndex c
+                              | .error _ => false)
+                 | .error _ => false)
+     | .error _ => false) = true := by decide +kernel
 
 end Jaqal.FillIn
